@@ -861,6 +861,7 @@ func (x *Exec) runLoopInvariant(cfg *FuncCFG, l *Loop, spec *LoopSpec, entry []e
 // ---------- instruction semantics ----------
 
 func (x *Exec) step(st *State, in ssa.Instruction) {
+	memCheck(x)
 	switch i := in.(type) {
 	case *ssa.Alloc:
 		st.env[i] = x.allocObj(st, i.Type().(*types.Pointer).Elem())
